@@ -22,7 +22,7 @@ CACHE = os.path.join(VERIF, ".cache")
 
 # (file in src, module declaration appended)
 CHILD_MODULES = [
-    ("lib.rs", '#[path = "%(R)s/exec_root.rs"] pub mod verif_exec;\n#[path = "%(R)s/exec_e2e.rs"] pub mod verif_exec_e2e;\n'),
+    ("lib.rs", '#[path = "%(R)s/exec_root.rs"] pub mod verif_exec;\n#[path = "%(R)s/exec_e2e.rs"] pub mod verif_exec_e2e;\n#[path = "%(R)s/exec_proofs.rs"] pub mod verif_exec_proofs;\n'),
     ("bitfield/mod.rs", '#[path = "%(R)s/exec_bitfield.rs"] pub(crate) mod verif_exec;\n'),
     ("oplog/mod.rs", '#[path = "%(R)s/exec_oplog.rs"] pub(crate) mod verif_exec;\n'),
 ]
@@ -67,7 +67,7 @@ def build(verbose=False):
         env = dict(os.environ)
         env["CARGO_TARGET_DIR"] = os.path.join(CACHE, "target")
         env["CARGO_NET_OFFLINE"] = "true"
-        env.setdefault("RUSTFLAGS", "-Awarnings")
+        env.setdefault("RUSTFLAGS", "-Awarnings -C overflow-checks=on")   # arithmetic overflow panics, as in debug builds
         p = subprocess.run(["cargo", "build", "--offline", "--release", "--bin", "verif_replay"], cwd=wd, env=env,
                            capture_output=True, text=True, timeout=1800)
         log = (p.stdout + p.stderr)[-6000:]
